@@ -132,6 +132,9 @@ type Ctx struct {
 	// Injective names uninterpreted unary functions that are injective by
 	// construction of the model that introduced them.
 	Injective map[string]bool
+	// Ranged maps the ID of an Int term to w when the term is constrained (by
+	// an assertion the creator adds) to the signed w-bit range.
+	Ranged map[int]int
 	True  *Term
 	False *Term
 }
@@ -144,6 +147,14 @@ func NewCtx() *Ctx {
 }
 
 func (c *Ctx) NumTerms() int { return c.n }
+
+// SetRanged records that Int term t lies in the signed w-bit range.
+func (c *Ctx) SetRanged(t *Term, w int) {
+	if c.Ranged == nil {
+		c.Ranged = map[int]int{}
+	}
+	c.Ranged[t.ID] = w
+}
 
 // SetInjective declares the unary uninterpreted function name injective.
 func (c *Ctx) SetInjective(name string) {
@@ -618,6 +629,19 @@ func (c *Ctx) BvNeg(a *Term) *Term {
 }
 
 func (c *Ctx) BvCmp(op Op, a, b *Term) *Term {
+	// signed comparison of a ranged integer (as bit-vector) with a constant: compare as integers
+	if op == OBvSlt || op == OBvSle {
+		iop := OIntLt
+		if op == OBvSle {
+			iop = OIntLe
+		}
+		if a.Op == OInt2BV && c.Ranged[a.Args[0].ID] == a.S.W && b.IsConst() && b.S.W <= 64 {
+			return c.IntCmp(iop, a.Args[0], c.IntConst64(sext(b.V, b.S.W)))
+		}
+		if b.Op == OInt2BV && c.Ranged[b.Args[0].ID] == b.S.W && a.IsConst() && a.S.W <= 64 {
+			return c.IntCmp(iop, c.IntConst64(sext(a.V, a.S.W)), b.Args[0])
+		}
+	}
 	if a.S != b.S || a.S.K != KBV {
 		panic(fmt.Sprintf("smt: bv cmp sort mismatch %v %v", a.S, b.S))
 	}
@@ -844,6 +868,9 @@ func (c *Ctx) BV2IntSigned(a *Term) *Term {
 	w := a.S.W
 	if a.IsConst() && w <= 64 {
 		return c.IntConst64(sext(a.V, w))
+	}
+	if a.Op == OInt2BV && c.Ranged[a.Args[0].ID] == w {
+		return a.Args[0] // the integer is known to fit the signed width
 	}
 	n := c.BV2Nat(a)
 	half := new(big.Int).Lsh(big.NewInt(1), uint(w-1))
